@@ -107,7 +107,7 @@ func NewExplorer(prog *ssa.Program, pkg *ssa.Package, fn *ssa.Function, cfg Conf
 		cfg.MaxSteps = 20_000_000
 	}
 	if cfg.MaxConcretize == 0 {
-		cfg.MaxConcretize = 64
+		cfg.MaxConcretize = 4096
 	}
 	if cfg.MaxSymIndex == 0 {
 		cfg.MaxSymIndex = 300
